@@ -441,7 +441,7 @@ def run_case(case):
         sim = rebound.Simulation()
         sim.rand_seed = r.randrange(1, 2 ** 31)
         sim.G = r.choice([0.0, 1e-3]) if resolver != 'record' else 0.0
-        nroot = r.choice([(1, 1, 1), (1, 1, 1), (2, 1, 1), (2, 2, 1), (3, 2, 2)]) if boundary != 'none' else None
+        nroot = r.choice([(1, 1, 1), (1, 1, 1), (2, 1, 1), (2, 2, 1), (3, 2, 2), (1, 1, 2), (1, 2, 3)]) if boundary != 'none' else None
         Lroot = L
         if boundary != 'none':
             # the box spans nroot * Lroot; keep all particles inside by scaling the root size down
